@@ -250,6 +250,12 @@ class Profiles:
         macros these are used in one go. Using `addProfile` instead my be
         **very** slow instead.
         """
+        # a registered profile is replaced by the new definition (before its
+        # new macros are noted: removing it forgets what it defined)
+        for profile, properties, macros in profiles:
+            if profile in self._profileNames:
+                self.removeProfile(profile)
+
         # add macros
         redefined = False
         for profile, properties, macros in profiles:
